@@ -40,6 +40,8 @@ fn scenarios(tier: Tier) -> Vec<Scenario> {
 		Scenario { name: "extend-spend-v5", universe: "long", prelude: vec!["*upto:x11"], op: vec!["B(x12)"] },
 		// and a fork block / a reorganisation with spends on both sides under version-5 headers
 		// (x90 spends coinbase 4, y90 spends coinbase 80; y91 makes the fork heavier)
+		// the block spends the very last node of the head's output MMR (a lone leaf peak)
+		Scenario { name: "extend-spend-last-leaf-v5", universe: "lastleaf", prelude: vec!["B(p1)", "B(p2)", "B(p3)", "B(p4)", "B(p5)", "B(p6)", "B(p7)", "B(p8)", "B(p9)", "B(p10)", "B(p11)", "B(p12)", "B(n13)"], op: vec!["B(n14)"] },
 		Scenario { name: "fork-block-v5", universe: "long", prelude: vec!["*upto:x90"], op: vec!["B(y90)"] },
 		Scenario { name: "reorg-spends-v5", universe: "long", prelude: vec!["*upto:x90", "B(y90)"], op: vec!["B(y91)"] },
 	];
@@ -129,6 +131,37 @@ pub fn universe(sc: &uni::Scratch, name: &str) -> Tree {
 					prev = Some(tb.add(&format!("w{}", h), prev, &spec));
 				}
 			}
+			tb.finish()
+		}
+		"lastleaf" => {
+			// version-5 headers (12 empty blocks first); block n13 creates a plain output X that is the LAST node
+			// of its output MMR (it sorts after the block's coinbase and the leaf count, 15, is odd: a lone
+			// peak, position == output_mmr_size); n14 spends X at once
+			let mut tb = TreeBuilder::new(sc, 23, false);
+			let kc = uni::keychain(23);
+			let m = 1_000_000u64;
+			let mut prev = None;
+			for h in 1..=12u32 {
+				prev = Some(tb.add(&format!("p{}", h), prev, &BlockSpec::empty(h)));
+			}
+			let cb13 = uni::coinbase(&kc, 13, m).0;
+			let mut key = 2000u32;
+			let tx13 = loop {
+				let t = uni::spend_coinbase(&kc, 1, REWARD, &[(key, REWARD - m)], 300);
+				if t.outputs()[0] > cb13 {
+					break t;
+				}
+				key += 1;
+				assert!(key < 2100, "no key sorts the plain output after the coinbase");
+			};
+			let n13 = tb.add("n13", prev, &BlockSpec::with(13, vec![tx13]));
+			{
+				let b = &tb.tree.blocks[n13].block;
+				assert!(!b.outputs().last().unwrap().is_coinbase(), "the plain output must be the last of block n13");
+				assert_eq!(b.header.output_mmr_size, 2 * 15 - 4, "15 leaves: 26 nodes, the last one a lone leaf");
+			}
+			let tx14 = uni::spend_plain(&kc, &[(key, REWARD - m)], &[(key + 500, REWARD - 2 * m)], None, 301);
+			let _n14 = tb.add("n14", Some(n13), &BlockSpec::with(14, vec![tx14]));
 			tb.finish()
 		}
 		_ => panic!("unknown universe"),
